@@ -9,7 +9,7 @@
     challenge handler answered; [None]: the wrapped handler ran), [alpn_get] = the TLS-ALPN
     branch of GetCertificate.  [sf] = KeyBuilder.Safe, [feq] = simple case folding of two code
     points (strings.EqualFold), [issuers] = the issuer keys of Config.Issuers: all arbitrary. *)
-From CM Require Import Lib.Str Gen.Consts Safe.Model Challenge.Assoc Challenge.Model Challenge.Proofs Challenge.RevProofs Challenge.Tie.
+From CM Require Import Lib.Str Gen.Consts Safe.Model Challenge.Assoc Challenge.Model Challenge.Proofs Challenge.RevProofs Challenge.MoreProofs Challenge.Tie.
 
 (** Key authorization is written only for GET of exactly <base>/<token> with a Host that folds to
     the identifier of a challenge that is pending, and it is that challenge's key authorization.
@@ -234,3 +234,51 @@ Example C15_reverse_names :
   challenge_key (Chal TTlsAlpn [116] [107] true [49] (rev_name [192; 0; 2; 7])) =
     [55;46;50;46;48;46;49;57;50;46;105;110;45;97;100;100;114;46;97;114;112;97].
 Proof. vm_compute. repeat split; try reflexivity. repeat constructor. Qed.
+
+(** * Clauses the monitor exercises through particular histories, for all histories *)
+
+(** a clean-up ends the challenge whatever its embedded solver reports (the model's [Clean] has no
+    outcome: token Delete failing, wrapped CleanUp failing, context cancelled — the memory entry and
+    the token of the cleaned challenge are gone; scenarios `*-cleaned-faulty`) *)
+Theorem C15_clean_forgets : forall sf issuers s w j c,
+  (has_mem w = true -> aget str_eqb (challenge_key c) (mem (step sf issuers s (Clean w j c))) = None) /\
+  (has_store w = true ->
+     aget skey_eqb (tkey sf (ikof issuers j) (challenge_key c)) (store (step sf issuers s (Clean w j c))) = None).
+Proof. exact clean_forgets. Qed.
+Print Assumptions C15_clean_forgets.
+
+(** requests served in the middle of a history — answered or not, before or after a Present —
+    never change the state, the pending challenges, or what any later request gets (no memoizing
+    of answers, no negative caching of misses; scenarios `*-asked*`, `asked-then-*`) *)
+Theorem C15_asks_never_matter : forall sf feq issuers ops,
+  run sf issuers (filter not_ask ops) = run sf issuers ops /\ pending (filter not_ask ops) = pending ops /\
+  wf sf issuers (filter not_ask ops) = wf sf issuers ops /\
+  (forall disabled lf r, http_handle sf feq issuers disabled lf (run sf issuers ops) r =
+                         http_handle sf feq issuers disabled lf (run sf issuers (filter not_ask ops)) r) /\
+  (forall lf sni protos, alpn_get sf feq issuers lf (run sf issuers ops) sni protos =
+                         alpn_get sf feq issuers lf (run sf issuers (filter not_ask ops)) sni protos).
+Proof. exact asks_never_matter. Qed.
+Print Assumptions C15_asks_never_matter.
+
+Theorem C15_ask_before_present : forall sf issuers ops1 ops2,
+  run sf issuers (ops1 ++ Ask :: ops2) = run sf issuers (ops1 ++ ops2).
+Proof. exact ask_before_present. Qed.
+Print Assumptions C15_ask_before_present.
+
+(** an acme-tls/1 hello WITHOUT a server name is not a challenge handshake, in any state: it gets
+    the application's certificate path *)
+Theorem C15_no_sni_hello_normal : forall sf feq issuers lf s protos,
+  alpn_get sf feq issuers lf s [] protos = ANormal.
+Proof. exact no_sni_hello_normal. Qed.
+Print Assumptions C15_no_sni_hello_normal.
+
+(** instance: a challenge presented elsewhere AFTER this node was asked about it (and found
+    nothing) is answered; a challenge cleaned up after having been served is not *)
+Example C15_ask_instances :
+  let c := Chal THttp [116] [116;46;107] false [97;46;116] None in
+  let r := HReq m_get (resource_path c) [97;46;116] in
+  let sf := safe (tbl_lower []) (tbl_space []) in
+  http_handle sf (tbl_feq []) [[99]] false false (run sf [[99]] [Ask; Present WRemote 0 c]) r = Some [116;46;107] /\
+  http_handle sf (tbl_feq []) [[99]] false false (run sf [[99]] [Present WRemote 0 c; Ask; Clean WRemote 0 c]) r = None /\
+  alpn_get sf (tbl_feq []) [[99]] false (run sf [[99]] [Present WLocal 0 c]) [] [acme_tls1_protocol] = ANormal.
+Proof. vm_compute. repeat split; reflexivity. Qed.
